@@ -291,6 +291,8 @@ def check_range(inst, V, ctx, body, spath, kind, roles):
     def strip_add1(x):
         if x[0] == 'bin' and x[1] in ('Add', 'Add_checked') and x[3] == ('int', 'usize', 1):
             return x[2], x[1]
+        if x[0] == 'bin' and x[1] in ('Add', 'Add_checked') and x[2] == ('int', 'usize', 1):
+            return x[3], x[1]
         if x[0] == 'call' and x[1] == 'int::wrapping_add' and x[2][1] == ('int', 'usize', 1):
             return x[2][0], 'wrapping'
         return None, None
